@@ -495,6 +495,32 @@ class Program:
                         j["crate"] = crate
                         self.traits[j["path"]] = j
         self._callers = None
+        # helpers that were spliced into every one of their callers are accounted for there: drop them from the
+        # function table (who-may-call rules would otherwise see their bodies twice, once out of context)
+        self.absorbed = {}
+        if self.inlined:
+            new = {h for hs in self.inlined.values() for h in hs}
+            still_called = set()
+            for f in self.fns.values():
+                if f.path in new:
+                    continue
+                for b in f.blocks:
+                    t = b.term
+                    if t.k == "call" and t.callee in new:
+                        still_called.add(t.callee)
+            # a helper still called from another helper that is itself still called stays too
+            changed = True
+            while changed:
+                changed = False
+                for h in list(new):
+                    if h in still_called:
+                        for b in self.fns[h].blocks:
+                            t = b.term
+                            if t.k == "call" and t.callee in new and t.callee not in still_called:
+                                still_called.add(t.callee)
+                                changed = True
+            for h in new - still_called:
+                self.absorbed[h] = self.fns.pop(h)
 
     def fn(self, path):
         f = self.fns.get(path)
@@ -538,7 +564,8 @@ class Program:
         return res
 
     def closures_of(self, fn):
-        return [f for f in self.fns.values() if f.closure_of == fn.path]
+        owners = {fn.path} | set(h for h in self.inlined.get(fn.path, []) if h in self.absorbed)
+        return [f for f in self.fns.values() if f.closure_of in owners]
 
     def call_graph(self):
         """fn path -> set of callee fn paths (local), closures constructed in a body count as called"""
